@@ -150,3 +150,33 @@ Proof.
             [] false None false false false false false).
   vm_compute. repeat split.
 Qed.
+
+(* ---------------------------------------------------------------- routing does not depend on the past
+   What the stack does with a stanza that is not a reply (anything but an iq of type result / error) is the same
+   whatever was sent or received before on that stack instance: no request registered earlier, in either
+   direction, changes which layers see it.  (Sending never reads the registry at all: par_send / stack_send
+   have no registry argument.)  A routing cache keyed by the tag and filled by the first stanza of either
+   direction (seed C06-6) is exactly a dependence on the past this excludes. *)
+Definition is_reply (f : feat) : bool :=
+  String.eqb (f_tag f) "iq" && (oeq (f_type f) "result" || oeq (f_type f) "error").
+
+Lemma registry_recv_nonreply : forall st l f, is_reply f = false -> registry_recv st l f = None.
+Proof.
+  intros st l f H. unfold registry_recv, is_reply in *.
+  destruct (String.eqb (f_tag f) "iq"); [|reflexivity]. cbn [andb] in H.
+  apply Bool.orb_false_iff in H. destruct H as [H1 H2].
+  destruct (reg_find st l (f_id f)) as [[[[? ?] ?] ?]|]; [|reflexivity].
+  rewrite H1, H2. reflexivity.
+Qed.
+
+Theorem recv_history_independent_thm : forall v c ax st f, is_reply f = false ->
+  stack_recv v c ax st f = stack_recv v c ax [] f.
+Proof.
+  intros v c ax st f H.
+  assert (Hp : par_recv v c st f = par_recv v c [] f).
+  { unfold par_recv. apply flat_map_ext. intros l. unfold layer_recv.
+    rewrite !registry_recv_nonreply by exact H. reflexivity. }
+  unfold stack_recv. destruct ax; [|exact Hp].
+  unfold ctl_recv, pair_recv, axsend_recv, axrecv_recv.
+  rewrite !registry_recv_nonreply by exact H. rewrite Hp. reflexivity.
+Qed.
